@@ -122,7 +122,7 @@ def run_impl(c, memo=None):
     import cellpylib as cpl
     ca = make_ca(c)
     snapshot = ca.tobytes()
-    rule = Rule(c["rule"], c.get("scale", 1), clobber=bool(c.get("clobber")), mixret=bool(c.get("mixret")))
+    rule = Rule(c["rule"], c.get("scale", 1), clobber=bool(c.get("clobber")), mixret=c.get("mixret") or False)
     pred = None
     if "T" in c:
         ts = c["T"]
@@ -179,3 +179,34 @@ def ref_evolve(c, steps=None):
         rows.append(nxt)
         cur = nxt
     return rows, rule.log
+
+
+# ----------------------------------------------------------------------------------------------
+# Float automata whose rule produces NaN / inf (0/0, x/0): oracle-only cases, compared bit for bit
+# ----------------------------------------------------------------------------------------------
+
+def nf_rule(n, c, t):
+    """Pure: the centre divided by the sum of the (unmasked) neighbourhood. 0/0 = NaN, x/0 = +-inf (NumPy scalars: no raise)."""
+    import warnings
+    a = np.ma.getdata(n)
+    centre = a[len(a) // 2] if a.ndim == 1 else a[a.shape[0] // 2][a.shape[1] // 2]
+    with warnings.catch_warnings():
+        warnings.simplefilter("ignore")
+        return centre / np.sum(n)
+
+
+def nf_automaton(c):
+    rng = np.random.RandomState(c["seed"])
+    vals = np.array([0.0, 0.0, 0.0, 1.0, -1.0, 2.0])
+    shape = (c.get("H", 1), c["N"]) if c["dim"] == 1 else (c.get("H", 1), 3, c["N"])
+    return vals[rng.randint(0, len(vals), size=shape)].astype(c.get("dtype", "float64"))
+
+
+def nf_evolve(c, ca, ts, memo):
+    import cellpylib as cpl
+    import warnings
+    with warnings.catch_warnings():
+        warnings.simplefilter("ignore")
+        if c["dim"] == 1:
+            return cpl.evolve(ca, timesteps=ts, apply_rule=nf_rule, r=1, memoize=memo_value(memo))
+        return cpl.evolve2d(ca, timesteps=ts, apply_rule=nf_rule, r=1, neighbourhood=c.get("nb", "Moore"), memoize=memo_value(memo))
